@@ -137,15 +137,26 @@ PollStep == /\ mode = "poll" /\ batch # <<>>
 PollEnd == /\ mode = "poll" /\ batch = <<>>
            /\ S' = Sweep(S) /\ mode' = "app" /\ UNCHANGED <<batch, todo, kAtStart>>
 
+\* epoll_wait interrupted by a signal (EINTR): no event is handled, the sweep still runs and the
+\* call returns an empty list (model only: the single-threaded harness never blocks in epoll_wait)
+PollEintr == /\ mode = "app" /\ ~(S.killed /\ S.hasKill)
+             /\ S' = Sweep(S) /\ UNCHANGED <<mode, batch, todo>> /\ kAtStart' = FALSE
+
 ClientStep == \E c \in Clients : Connect(c) \/ Send(c) \/ Recv(c) \/ ShutWr(c) \/ ShutRd(c) \/ Close(c)
 AppStep == (\E t \in S.outst : AppRespond(t)) \/ AppFlush \/ AppKill
 ServerStep == PollStart \/ PollStep \/ PollEnd
-Next == ClientStep \/ AppStep \/ ServerStep
+Next == ClientStep \/ AppStep \/ ServerStep \/ PollEintr
 Spec == Init /\ [][Next]_vars
 
 \* liveness: the server steps, client sends/reads and the application's answers are fair
 FairSpec == Spec /\ WF_vars(ServerStep) /\ WF_vars(\E t \in S.outst : AppRespond(t))
                  /\ \A c \in Clients : WF_vars(Connect(c)) /\ WF_vars(Send(c)) /\ WF_vars(Recv(c))
+
+\* While a dead connection with unanswered requests makes the epoll descriptor signal all the
+\* time, the caller polls in a loop and the application and the clients get their turn only
+\* between two polls: they are enabled again and again, not continuously -> strong fairness.
+StrongFairSpec == Spec /\ WF_vars(ServerStep) /\ SF_vars(\E t \in S.outst : AppRespond(t))
+                       /\ \A c \in Clients : SF_vars(Connect(c)) /\ SF_vars(Send(c)) /\ SF_vars(Recv(c))
 
 -----------------------------------------------------------------------------
 \* C08 / C09: requests() never fails (also with rogue clients)
@@ -192,6 +203,13 @@ Rest == /\ AllSent /\ mode = "app" /\ S.outst = {} /\ S.backlog = <<>>
         /\ \A c \in Clients : S.c2s[c] = <<>> /\ S.s2c[c] = <<>>
         /\ \A f \in Open(S) : ~PendingWrite(S.srv[f].http)
 EventuallyRest == <>[]Rest
+
+\* C09 liveness: whatever the rogue clients do, the witness (client 1) gets all its answers
+WitnessRest == /\ todo[1] = <<>> /\ mode = "app" /\ S.c2s[1] = <<>> /\ S.s2c[1] = <<>>
+               /\ \A t \in S.outst : t.owner # 1
+               /\ \A f \in Open(S) : S.srv[f].peer = 1 => ~PendingWrite(S.srv[f].http)
+               /\ S.cl[1].st = "open"
+WitnessServed == <>[]WitnessRest
 
 -----------------------------------------------------------------------------
 WitnessNames == <<"two_event_batch", "refused", "fd_reused", "swept_after_respond", "closed_with_inflight",
